@@ -3,7 +3,10 @@
 
 package retry
 
-import "sync"
+import (
+	"context"
+	"sync"
+)
 
 var verifStoppedLoops sync.Map
 
@@ -15,4 +18,10 @@ func (a *asyncFifoRetryImpl) verifStopped() bool {
 // StopForVerif makes Run return at its next tick
 func (a *asyncFifoRetryImpl) StopForVerif() {
 	verifStoppedLoops.Store(a, struct{}{})
+}
+
+// RetryNowForVerif runs the repair step for every queued entry that is due, in the caller's goroutine
+func (a *asyncFifoRetryImpl) RetryNowForVerif(ctx context.Context) {
+	for !a.retry(ctx) {
+	}
 }
